@@ -59,11 +59,13 @@ Definition lts_cancel_ok (c : Stream.case) : bool :=
                           | _ => true
                           end) late_ops
   | Stream.GoChecked _ _ ok => ok
+  | Stream.Http c => HttpSched.oracle_case c
   end.
 
 Definition oracle_case (k : case) : bool :=
   match k with
   | Lts c => lts_cancel_ok c
+  | HLts c => HttpSched.oracle_case c
   | Checked _ _ ok => ok
   | _ => true
   end.
